@@ -11,11 +11,20 @@ trap cleanup EXIT
 cd $wt
 FL="-std=c++17 -I $wt/code/include -lpthread -ldl $*"
 [ -f "$d/demo_flags" ] && FL="$FL $(cat "$d/demo_flags")"
+# a demonstration that needs more than "compile one file and run it" (several shared objects, arguments) brings a
+# demo_run script: bash demo_run <include dir> <demo.cpp> <scratch dir>, exit status = the demonstration's
+if [ -f "$d/demo_run" ]; then
+  mkdir -p $wt/_d1 $wt/_d2
+  timeout 300 bash "$d/demo_run" $wt/code/include "$d/demo.cpp" $wt/_d1 >/dev/null 2>&1; rc_clean=$?
+  git apply "$d/patch.diff" || { echo "PATCH DOES NOT APPLY"; exit 7; }
+  timeout 300 bash "$d/demo_run" $wt/code/include "$d/demo.cpp" $wt/_d2 >/dev/null 2>&1; rc_mut=$?
+else
 g++ $FL "$d/demo.cpp" -o $wt/demo_clean -lpthread -ldl 2>$wt/cerr || { echo "DEMO DOES NOT COMPILE (clean)"; tail -5 $wt/cerr; exit 8; }
 timeout 120 $wt/demo_clean >/dev/null 2>&1; rc_clean=$?
 git apply "$d/patch.diff" || { echo "PATCH DOES NOT APPLY"; exit 7; }
 g++ $FL "$d/demo.cpp" -o $wt/demo_mut -lpthread -ldl 2>$wt/cerr || { echo "DEMO DOES NOT COMPILE (mutated)"; tail -5 $wt/cerr; exit 6; }
 timeout 120 $wt/demo_mut >/dev/null 2>&1; rc_mut=$?
+fi
 cmake -G Ninja -B _build >/dev/null 2>&1 && cmake --build _build >/dev/null 2>&1 || { echo "TEST BUILD FAILS WITH PATCH"; exit 5; }
 tests=$(ctest --test-dir _build -j8 2>&1 | grep "tests passed" )
 echo "demo clean rc=$rc_clean mutated rc=$rc_mut | $tests"
